@@ -8,10 +8,10 @@ Two observation points on the real code in antismash.common.all_orfs:
   returned locations are compared with vf.models.orf_ref: same multiset of (base set on the record,
   nucleotides read from the record on the reported strand in the reported part order).
 * find_all_orfs(record, area, min_length, max_overlap) on generated gene layouts: every returned
-  feature must be an ORF when read from the record, at least min_length long, overlap the extent of
-  every existing gene by at most max_overlap bases, lie inside the area, carry the translation of
-  its own nucleotides (first residue M); and every ORF the reference finds in the gaps between
-  consecutive genes (widened by max_overlap) must be returned.
+  feature must be an ORF when read from the record, at least min_length long, overlap every
+  existing gene by at most max_overlap bases, lie inside the area, carry the translation of
+  its own nucleotides (first residue M); and the set of returned ORFs must be the set the reference
+  finds in the gaps between consecutive genes (widened by max_overlap).
 
 The record sequence is read by the oracle with its own complement table and part-order walk
 (orf_ref.read_sequence); Biopython's location.extract on the same record is evaluated next to it.
@@ -51,9 +51,17 @@ ASSUMPTIONS = [
     "the whole ring through a rotated window is counted as skipped:orf-covers-whole-ring, not decided).",
     "For direction -1 the caller hands over the reverse complement of the window, as find_all_orfs does.",
     "A gene's extent includes its introns; an origin-spanning gene has two extents, [first exon start, L) and "
-    "[0, last exon end). 'Gaps between existing genes' are the stretches between consecutive gene extents of "
-    "the searched range, each widened by max_overlap on both sides; the whole-record search reads the record "
-    "as a line, an origin-spanning area as one stretch through the origin.",
+    "[0, last exon end). A gene belongs to a searched stretch when one of its exons has a base in it. 'Gaps "
+    "between existing genes' are the stretches between consecutive gene extents of the searched range, each "
+    "widened by max_overlap on both sides; the whole-record search reads the record as a line, an "
+    "origin-spanning area as one stretch through the origin (joined before the minimum length is applied).",
+    "'Overlap with a gene' is the longest run of consecutive ORF bases that are exon bases of that gene, i.e. "
+    "the overlap at one end of the ORF (on a small ring an ORF may touch one gene with both ends).",
+    "When a gene of the searched range is not longer than 2*max_overlap the widened gaps on its two sides run "
+    "into each other and the property does not say which stretches are the gaps: such layouts are counted as "
+    "unspecified:gene-not-longer-than-twice-allowance and only the per-ORF clauses (is an ORF, minimum length, "
+    "allowance, inside the area, translation, no crash) are decided.",
+    "Returning the same ORF twice (once per overlapping gap) is counted (observed:...), not a deviation.",
     "The translation of an ORF ends at the first codon all of whose readings are stops (ambiguity codes); "
     "codons with several possible amino acids give X.",
     "Biopython's Seq/SimpleLocation/CompoundLocation are trusted for .parts/.start/.end/.strand.",
@@ -598,16 +606,22 @@ def evaluate_find(ctx, case):
         key = (bases, strand)
         seen[key] = seen.get(key, 0) + 1
 
-        # per-gene facts
+        # per-gene facts; overlap is measured along the ring (the reported part order may be wrong)
+        if wraps:
+            along = [p for part in sorted(parts, reverse=True) for p in range(*part)]
+        else:
+            along = sorted(bases)
         into_origin_gene = False
         into_k3_gene = False
         for gene_bases, exts, spanning in extent_sets:
+            if any(s <= p < e for s, e in exts for p in (along[0], along[-1])) or bases & gene_bases:
+                # reaches into the gene's extent (exon or intron)
+                into_origin_gene = into_origin_gene or spanning
+                into_k3_gene = into_k3_gene or ((not spanning) and _contains_end_of_other(tuple(exts[0]), scope))
             if not bases & gene_bases:
                 continue
-            shared = longest_run_inside(reading, gene_bases)
+            shared = longest_run_inside(along, gene_bases)
             contains_later_end = (not spanning) and _contains_end_of_other(tuple(exts[0]), scope)
-            into_origin_gene = into_origin_gene or spanning
-            into_k3_gene = into_k3_gene or contains_later_end
             if shared <= allowance:
                 within_allowance = True
             else:
